@@ -37,6 +37,8 @@ type Obs struct {
 type WorkerResult struct {
 	Obs          []Obs  `json:"obs"`
 	HarnessError string `json:"harness_error,omitempty"`
+	// FeederDenied: the server refused the publisher that supplies the readers' paths (the read cases were not run)
+	FeederDenied string `json:"feeder_denied,omitempty"`
 	// wall-clock seconds of the phases (diagnostics only)
 	StartS, ReadS, PubS float64
 }
@@ -135,22 +137,31 @@ func runJob(idx int, tmp string, job Job) (res WorkerResult) {
 	}
 
 	// Phase R: every path has a publisher (user v3 may publish anywhere); all readers run concurrently.
+	var feeders []*e2elib.Feeder
+	stopFeeders := func() {
+		for _, f := range feeders {
+			f.Stop()
+		}
+	}
 	if len(readCases) > 0 {
 		feedCred := e2elib.Creds{User: "v3", Pass: "p3"}
-		var feeders []*e2elib.Feeder
-		stopFeeders := func() {
-			for _, f := range feeders {
-				f.Stop()
-			}
-		}
+		feeders = nil
 		for _, pa := range []string{"a", "b1", "b2", "c"} {
-			f, err := e2elib.StartFeeder(ports.Addr(e2elib.PRTSP), pa, feedCred, 40*time.Millisecond)
+			f, outcome, err := e2elib.StartFeeder(ports.Addr(e2elib.PRTSP), pa, feedCred, 40*time.Millisecond)
 			if err != nil {
 				stopFeeders()
+				if outcome == e2elib.OutDenied {
+					// the feeder is itself a client that the reference predicate admits (v3 may publish anywhere)
+					res.FeederDenied = err.Error()
+					readCases = nil
+					break
+				}
 				return WorkerResult{HarnessError: err.Error()}
 			}
 			feeders = append(feeders, f)
 		}
+	}
+	if len(readCases) > 0 {
 		ok, err := e2elib.WaitFor(waitTimeout, func() (bool, error) {
 			ps, err := w.api.Paths()
 			if err != nil {
@@ -215,7 +226,9 @@ func runJob(idx int, tmp string, job Job) (res WorkerResult) {
 
 	res.PubS = time.Since(t0).Seconds()
 	for _, c := range job.Cases {
-		res.Obs = append(res.Obs, out[c.ID])
+		if o, ok := out[c.ID]; ok {
+			res.Obs = append(res.Obs, o)
+		}
 	}
 	return res
 }
